@@ -127,6 +127,24 @@ def run(ck):
     rec_ = P.record('ephemeralnet::relay::RelayServer')
     ft = {f_['n']: f_.get('t', '') for f_ in rec_.get('fields', [])}
     ck.ob('C26.own', 'C26.own/registered-weak', 'weak_ptr' in ft.get('registered_', ''), '', 'registered_ holds weak_ptr (a registration does not keep a closed session alive)')
+    # a registration is removed by looking up session->peer_hex: it must have been entered under that same key
+    from sa.canon import canon
+    ins = []
+    for f in P.fns:
+        for i in f.walk():
+            nd = f.nodes[i]
+            if nd['k'] == 'CXXOperatorCallExpr' and nd.get('op') == '=' and len(f.kids(i)) == 3:
+                l, r = f.strip(f.kids(i)[1]), f.strip(f.kids(i)[2])
+                ln = f.nodes[l]
+                if ln['k'] == 'CXXOperatorCallExpr' and ln.get('op') == '[]' and len(f.kids(l)) == 3:
+                    cont = f.nodes[f.strip(f.kids(l)[1])]
+                    if cont['k'] == 'MemberExpr' and cont.get('m') == 'ephemeralnet::relay::RelayServer::registered_':
+                        ins.append((f, i, canon(f, f.kids(l)[2]), canon(f, r)))
+    ck.floor('C26.release', 'insertions into registered_', len(ins), 2)
+    for f, i, key, val in ins:
+        ok = key[0] == 'm' and key[2] == 'peer_hex' and key[1] in (val, ('op->', val), ('u*', val))
+        ck.ob('C26.release', 'C26.release/registration-key/%s' % short(f.q).split('::')[-1], ok, f.loc(i),
+              'registered_ is keyed by the canonical peer_hex of the very session it stores (remove_registration looks it up by session->peer_hex); found key %s for value %s' % (key, val))
     crec = P.record('ephemeralnet::relay::RelayServer::ClientSession')
     cft = {f_['n']: f_.get('t', '') for f_ in crec.get('fields', [])}
     ck.ob('C26.own', 'C26.own/partner-weak', 'weak_ptr' in cft.get('partner', ''), '', 'ClientSession::partner is a weak_ptr (no ownership cycle between bridged sessions)')
